@@ -156,11 +156,13 @@ static double draw_phi(vfh::Rng &r) {
   if (c == 2) return s * (double)PI / 2;
   return r.uni(-((double)PI - 0.02), (double)PI - 0.02);
 }
-static Chain gen_chain(vfh::Rng &r, int nb) {
+// bond lengths: log-uniform in [llo, lhi] (default: ratios 0.1..10), or uniform when uniform_len
+static Chain gen_chain(vfh::Rng &r, int nb, double llo = 0.05, double lhi = 0.5, bool uniform_len = false) {
   Chain C;
-  double l0 = r.logu(0.05, 0.5);
+  auto draw = [&]() { return uniform_len ? r.uni(llo, lhi) : r.logu(llo, lhi); };
+  double l0 = draw();
   bool equal = r.coin(0.1);
-  auto bl = [&]() { return equal ? l0 : r.logu(0.05, 0.5); };  // ratios 0.1..10
+  auto bl = [&]() { return equal ? l0 : draw(); };
   C.p.resize(nb);
   double s = r.logu(0.1, 20);
   C.p[0] = V3(r.uni(-s, s), r.uni(-s, s), r.uni(-s, s));
@@ -222,6 +224,24 @@ static BoxG gen_box(vfh::Rng &r, int kind, double lmax) {
   }
   return B;
 }
+static double box_hmin(const BoxG &B);
+// box whose shortest height is exactly H (orthorhombic or reduced triclinic, aspect <= 2.5)
+static BoxG gen_small_box(vfh::Rng &r, int kind, double H) {
+  BoxG B;
+  B.kind = kind;
+  B.m.setZero();
+  double e[3] = {1.0, r.coin(0.3) ? 1.0 : r.uni(1, 2.5), r.coin(0.3) ? 1.0 : r.uni(1, 2.5)};
+  for (int k = 2; k > 0; --k) std::swap(e[k], e[r.range(0, k)]);
+  B.m(0, 0) = e[0]; B.m(1, 1) = e[1]; B.m(2, 2) = e[2];
+  if (kind == 2) {
+    B.m(0, 1) = r.uni(-0.5, 0.5) * e[0];
+    B.m(0, 2) = r.uni(-0.5, 0.5) * e[0];
+    B.m(1, 2) = r.uni(-0.5, 0.5) * e[1];
+    if (r.coin(0.1)) B.m(0, 1) = 0.5 * e[0];
+  }
+  B.m *= H / box_hmin(B);
+  return B;
+}
 static double box_hmin(const BoxG &B) {
   if (B.kind == 0) return INFINITY;
   V3 a = B.m.col(0), b = B.m.col(1), c = B.m.col(2);
@@ -252,13 +272,28 @@ struct World {
   }
 };
 
-static void part_inter(vfh::Rng &rng, vfh::Reporter &R, long ncases) {
+// extended = family "extended-in-small-box": bond lengths 0.30..0.49 of the shortest box height, random
+// directions, so that 1-3 and 1-4 separations routinely exceed half a box edge while every single bond
+// stays below half the box (all the interactions need)
+static void part_inter(vfh::Rng &rng, vfh::Reporter &R, long ncases, bool extended) {
+  const std::string fpre = extended ? "extended-in-small-box/" : "";
   for (long ic = 0; ic < ncases; ++ic) {
     int nb = (int)rng.range(4, 9);
-    Chain C = gen_chain(rng, nb);
     int kind = (ic % 10 == 0) ? 0 : (ic % 2 ? 1 : 2);
-    BoxG B = gen_box(rng, kind, C.lmax);
-    if (kind && box_hmin(B) * 0.45 < C.lmax) { R.counter("box_regenerated"); --ic; continue; }
+    if (extended) kind = ic % 2 ? 1 : 2;
+    const double Hx = extended ? rng.logu(0.5, 5) : 0.0;
+    Chain C = extended ? gen_chain(rng, nb, 0.30 * Hx, 0.49 * Hx, true) : gen_chain(rng, nb);
+    BoxG B = extended ? gen_small_box(rng, kind, Hx) : gen_box(rng, kind, C.lmax);
+    if (!extended && kind && box_hmin(B) * 0.45 < C.lmax) { R.counter("box_regenerated"); --ic; continue; }
+    // a bond whose component comes close to half the corresponding box edge sits at the minimum-image
+    // discontinuity (sequential reduction z, y, x with the diagonal entries): not differentiable there
+    std::vector<bool> bond_ok(nb - 1, true);
+    if (kind)
+      for (int k = 0; k + 1 < nb; ++k) {
+        V3 v = C.p[k + 1] - C.p[k];
+        for (int c = 0; c < 3; ++c)
+          if (std::fabs(v[c]) / B.m(c, c) > 0.5 - 0.004) bond_ok[k] = false;
+      }
     World W;
     W.top.setBox(B.m);
     // beads created in a random order, extra unrelated beads in between
@@ -286,7 +321,7 @@ static void part_inter(vfh::Rng &rng, vfh::Reporter &R, long ncases) {
     // the interactions of this chain
     std::vector<Inter> inters;
     for (int k = 0; k + 1 < nb; ++k) {
-      Inter I{2, {k, k + 1}, C.len[k], 1.0, true, true};
+      Inter I{2, {k, k + 1}, C.len[k], 1.0, bond_ok[k], true};
       if (rng.coin()) std::swap(I.ch[0], I.ch[1]);
       inters.push_back(I);
     }
@@ -294,6 +329,14 @@ static void part_inter(vfh::Rng &rng, vfh::Reporter &R, long ncases) {
       double th = C.theta[k];
       Inter I{3, {k, k + 1, k + 2}, std::min(C.len[k], C.len[k + 1]), std::sin(th), th > 0.02 && th < (double)PI - 0.02,
               std::fabs(C.len[k] / C.len[k + 1] - 1) > 0.01 && std::fabs(th - (double)PI / 2) > 0.01};
+      if (!(bond_ok[k] && bond_ok[k + 1])) { I.judged_fd = false; R.counter(fpre + "bond_component_near_half_box_dontcare"); }
+      if (extended && kind) {
+        V3 r13 = C.p[k + 2] - C.p[k];
+        bool far = false;
+        for (int c = 0; c < 3; ++c) far = far || std::fabs(r13[c]) > 0.5 * B.m(c, c);
+        R.counter(fpre + "angle_cases");
+        if (far) R.counter(fpre + "angle_cases_with_r13_beyond_half_an_edge");
+      }
       if (rng.coin()) std::swap(I.ch[0], I.ch[2]);
       inters.push_back(I);
     }
@@ -305,6 +348,18 @@ static void part_inter(vfh::Rng &rng, vfh::Reporter &R, long ncases) {
               // margins: |phi| <= pi-0.02, no collinear triple (sin >= 1e-3); the acos form is equally
               // singular at phi = 0, same kind of margin there (1e-3)
               ph < (double)PI - 0.02 && ph > 1e-3 && std::sin(t1) >= 1e-3 && std::sin(t2) >= 1e-3, true};
+      if (!(bond_ok[k] && bond_ok[k + 1] && bond_ok[k + 2])) { I.judged_fd = false; R.counter(fpre + "bond_component_near_half_box_dontcare"); }
+      if (extended && kind) {
+        V3 r13 = C.p[k + 2] - C.p[k], r24 = C.p[k + 3] - C.p[k + 1], r14 = C.p[k + 3] - C.p[k];
+        bool far = false, far14 = false;
+        for (int c = 0; c < 3; ++c) {
+          far = far || std::fabs(r13[c]) > 0.5 * B.m(c, c) || std::fabs(r24[c]) > 0.5 * B.m(c, c);
+          far14 = far14 || std::fabs(r14[c]) > 0.5 * B.m(c, c);
+        }
+        R.counter(fpre + "dihedral_cases");
+        if (far) R.counter(fpre + "dihedral_cases_with_r13_or_r24_beyond_half_an_edge");
+        if (far14) R.counter(fpre + "dihedral_cases_with_r14_beyond_half_an_edge");
+      }
       if (rng.coin()) { std::swap(I.ch[0], I.ch[3]); std::swap(I.ch[1], I.ch[2]); }
       inters.push_back(I);
     }
@@ -312,7 +367,7 @@ static void part_inter(vfh::Rng &rng, vfh::Reporter &R, long ncases) {
     for (const Inter &I : inters) {
       auto it = W.make(I);
       const int nbd = I.kind;
-      std::string fam = I.name();
+      std::string fam = fpre + I.name();
       auto witness = [&]() {
         J w;
         w.s("interaction", fam).raw("box_rowmajor", matjson(B.m)).i("box_kind", B.kind);
@@ -417,7 +472,9 @@ static void part_inter(vfh::Rng &rng, vfh::Reporter &R, long ncases) {
         W.set(q);
       };
       {
-        Eigen::Matrix3d Rot = (B.kind == 0 || rng.coin(0.7)) ? rand_rot(rng) : Eigen::Matrix3d::Identity();
+        // rotations only while every bond stays below 0.45 of the shortest height (no image decision)
+        bool may_rotate = B.kind == 0 || C.lmax <= 0.45 * box_hmin(B);
+        Eigen::Matrix3d Rot = (may_rotate && (B.kind == 0 || rng.coin(0.7))) ? rand_rot(rng) : Eigen::Matrix3d::Identity();
         double ts = rng.logu(0.01, 100);
         V3 t(rng.uni(-ts, ts), rng.uni(-ts, ts), rng.uni(-ts, ts)), cen = C.p[I.ch[0]];
         std::vector<V3> q2(nb);
@@ -970,7 +1027,8 @@ int main(int argc, char **argv) {
   vfh::Rng rng(seed * 7919 + shard * 104729 + vfh::hstr(3, part) % 1000003);
   vfh::Reporter R;
   g_stats = A.has("stats");
-  if (part == "inter") part_inter(rng, R, n);
+  if (part == "inter") part_inter(rng, R, n, false);
+  else if (part == "interx") part_inter(rng, R, n, true);
   else if (part == "pot") part_pot(rng, R, n, tmp);
   else if (part == "spline") part_spline(rng, R, n);
   else { std::cerr << "unknown part\n"; return 3; }
